@@ -82,6 +82,10 @@ pub struct BadBlock {
 	/// only its proof of work): the node may well know that hash - what it stores under it must stay
 	/// the honest header
 	pub twin_of: Option<usize>,
+	/// valid headers extending this block's (valid) header: a header-only fork on top of a block whose
+	/// body is refused - residue a node is allowed to keep, and which must not change how it judges
+	/// the blocks of its own chain
+	pub ghosts: Vec<BlockHeader>,
 }
 
 pub struct Wallet {
